@@ -182,7 +182,10 @@ theorem safeName_spec (lower : Bool) (n : Name) (h : safeName lower n = true) :
   obtain ⟨⟨⟨h1, h2⟩, h3⟩, h4⟩ := h
   refine ⟨h1, h2, ?_, ?_⟩
   · match n, h3 with
-    | c :: r, h3 => exact ⟨c, r, rfl, h3.1.1, h3.1.2, h3.2⟩
+    | c :: r, h3 =>
+      simp only [Bool.and_eq_true, bne_iff_ne, ne_eq] at h3
+      exact ⟨c, r, rfl, h3.1.1, h3.1.2, h3.2⟩
+    | [], h3 => simp at h3
   · intro hl
     rcases h4 with h4 | h4
     · rw [hl] at h4; cases h4
@@ -260,5 +263,163 @@ theorem step_optLine (lower : Bool) (st : RS) (n v : List Char) (hn : safeName l
   | true =>
     obtain ⟨ha, hm⟩ := hlow rfl
     simp [ha, hm, hk, hnnil]
+
+/-! ## the whole text: `read_file` + `items("styles")` on what `Theme.config` writes -/
+
+def entryLine (e : Name × List Char) : List Char := optLine e.1 e.2
+
+/-- the text `Theme.config` produces for the (sorted) entries `es` -/
+def render (es : List (Name × List Char)) : List Char := sectHeader ++ '\n' :: joinNL (es.map entryLine)
+
+theorem hasKey_false (items : List (Name × List Char)) (n : Name) (h : n ∉ keys items) :
+    hasKey items n = false := by
+  unfold hasKey
+  rw [Bool.eq_false_iff]
+  intro hc
+  rw [List.any_eq_true] at hc
+  obtain ⟨p, hp, he⟩ := hc
+  have : p.1 = n := by simpa using he
+  exact h (this ▸ List.mem_map_of_mem (f := Prod.fst) hp)
+
+theorem readLines_entries (lower : Bool) (es : List (Name × List Char)) :
+    ∀ (acc : List (Name × List Char)) (perr : Bool),
+      (∀ e ∈ es, safeName lower e.1 = true ∧ noSpaceEnds e.2 = true) → WFD (acc ++ es) →
+      readLines lower { sect := true, items := acc, perr := perr } (es.map entryLine) =
+        .ok { sect := true, items := acc ++ es, perr := perr } := by
+  induction es with
+  | nil => intro acc perr _ _; simp [readLines]
+  | cons e rest ih =>
+    intro acc perr hs hnd
+    have he := hs e List.mem_cons_self
+    have hk : e.1 ∉ keys acc := by
+      unfold WFD keys at hnd
+      rw [List.map_append, List.map_cons] at hnd
+      have := (List.nodup_append.1 hnd).2.2
+      intro hm
+      exact this _ hm _ List.mem_cons_self rfl
+    have hstep := step_optLine lower { sect := true, items := acc, perr := perr } e.1 e.2 he.1 he.2 rfl
+      (hasKey_false acc e.1 hk)
+    simp only [List.map_cons, readLines, entryLine, hstep]
+    have hnd' : WFD ((acc ++ [e]) ++ rest) := by simpa using hnd
+    have := ih (acc ++ [e]) perr (fun x hx => hs x (List.mem_cons_of_mem _ hx)) hnd'
+    simpa [entryLine] using this
+
+theorem interpGo_id (v : List Char) (h : ∀ c ∈ v, c ≠ '%') : interpGo false v = .ok v := by
+  induction v with
+  | nil => rfl
+  | cons c r ih =>
+    have hc := h c List.mem_cons_self
+    simp [interpGo, hc, ih (fun x hx => h x (List.mem_cons_of_mem _ hx)), Res.map]
+
+theorem interpItems_id (es : List (Name × List Char)) (h : ∀ e ∈ es, ∀ c ∈ e.2, c ≠ '%') :
+    interpItems es = .ok es := by
+  induction es with
+  | nil => rfl
+  | cons e rest ih =>
+    obtain ⟨n, v⟩ := e
+    have hv := interpGo_id v (h (n, v) List.mem_cons_self)
+    simp [interpItems, interpolate, hv, ih (fun x hx => h x (List.mem_cons_of_mem _ hx))]
+
+theorem safeValue_spec (interp : Bool) (v : List Char) (h : safeValue interp v = true) :
+    noSpaceEnds v = true ∧ (∀ c ∈ v, c ≠ '\n') ∧ (interp = true → ∀ c ∈ v, c ≠ '%') := by
+  unfold safeValue at h
+  simp only [Bool.and_eq_true, Bool.or_eq_true, Bool.not_eq_true', List.all_eq_true, bne_iff_ne, ne_eq] at h
+  obtain ⟨⟨h1, h2⟩, h3⟩ := h
+  refine ⟨h1, h2, ?_⟩
+  intro hi
+  rcases h3 with h3 | h3
+  · rw [hi] at h3; cases h3
+  · exact h3
+
+theorem entryLine_noNL (lower interp : Bool) (e : Name × List Char)
+    (h : safeName lower e.1 = true ∧ safeValue interp e.2 = true) : '\n' ∉ entryLine e := by
+  obtain ⟨_, hn, _, _⟩ := safeName_spec lower e.1 h.1
+  obtain ⟨_, hv, _⟩ := safeValue_spec interp e.2 h.2
+  simp only [entryLine, optLine, List.mem_append, List.mem_cons, not_or]
+  refine ⟨fun hm => (hn _ hm).1 rfl, by decide, by decide, by decide, fun hm => hv _ hm rfl⟩
+
+/-- **The contract of the modelled `configparser`**: on the text `Theme.config` writes for entries
+with safe names and values (and unique names) it gives back exactly those entries, in order. -/
+theorem cfgItems_render (lower interp : Bool) (es : List (Name × List Char))
+    (hs : ∀ e ∈ es, safeName lower e.1 = true ∧ safeValue interp e.2 = true) (hnd : WFD es) :
+    cfgItems lower interp (render es) = .ok es := by
+  have hhead : '\n' ∉ sectHeader := by decide
+  have hstep0 : step lower {} sectHeader = .ok { sect := true } := by cases lower <;> rfl
+  have hs' : ∀ e ∈ es, safeName lower e.1 = true ∧ noSpaceEnds e.2 = true :=
+    fun e he => ⟨(hs e he).1, (safeValue_spec interp e.2 (hs e he).2).1⟩
+  have hread : readLines lower {} (splitNL (render es)) = .ok { sect := true, items := es, perr := false } := by
+    unfold render
+    rw [splitNL_append_nl _ _ hhead]
+    cases es with
+    | nil =>
+      have hstepE : step lower { sect := true } [] = .ok { sect := true } := by cases lower <;> rfl
+      simp only [List.map_nil, joinNL, splitNL, readLines, hstep0, hstepE]
+    | cons e rest =>
+      rw [splitNL_joinNL _ (by simp) (by
+        intro l hl
+        obtain ⟨x, hx, rfl⟩ := List.mem_map.1 hl
+        exact entryLine_noNL lower interp x (hs x hx))]
+      simp only [readLines, hstep0]
+      have := readLines_entries lower (e :: rest) [] false hs' (by simpa using hnd)
+      simpa using this
+  unfold cfgItems
+  rw [hread]
+  simp only [Bool.false_eq_true, if_false, Bool.not_true]
+  cases interp with
+  | false => rfl
+  | true =>
+    simp only [if_true]
+    exact interpItems_id es (fun e he => (safeValue_spec true e.2 (hs e he).2).2.2 rfl)
+
+/-! ## the round trip over an abstract reader -/
+
+/-- What `Theme.from_file` needs from `configparser`: entries with acceptable names and values
+(unique names), written the way `Theme.config` writes them, are read back unchanged. -/
+def Contract (read : List Char → Res (List (Name × List Char))) (okName : Name → Bool)
+    (okValue : List Char → Bool) : Prop :=
+  ∀ es : List (Name × List Char), (∀ e ∈ es, okName e.1 = true ∧ okValue e.2 = true) → WFD es →
+    read (render es) = .ok es
+
+theorem cfgItems_contract (lower interp : Bool) :
+    Contract (cfgItems lower interp) (safeName lower) (safeValue interp) :=
+  fun es hs hnd => cfgItems_render lower interp es hs hnd
+
+variable {σ : Type}
+
+theorem config_eq_render (str : σ → List Char) (t : Theme σ) :
+    Theme.config str t = render ((sortItems t.styles).map (fun p => (p.1, str p.2))) := by
+  have h : cfgLine str = fun x => optLine x.1 (str x.2) := funext (cfgLine_eq str)
+  simp [Theme.config, render, List.map_map, Function.comp_def, h, entryLine]
+
+theorem fromFileWith_config (read : List Char → Res (List (Name × List Char))) (okName : Name → Bool)
+    (okValue : List Char → Bool) (hc : Contract read okName okValue)
+    (defaults : Dict σ) (parse : Parse σ) (str : σ → List Char) (t : Theme σ) (inherit : Bool)
+    (hwf : WFD t.styles)
+    (hnames : ∀ p ∈ t.styles, okName p.1 = true)
+    (hvalues : ∀ p ∈ t.styles, okValue (str p.2) = true)
+    (hparse : ∀ p ∈ t.styles, parse (str p.2) = .ok p.2) :
+    fromFileWith read defaults parse (Theme.config str t) inherit =
+      .ok ⟨dupdate (if inherit then defaults else []) (dupdate [] (dupdate [] (sortItems t.styles)))⟩ := by
+  have hmem : ∀ p, p ∈ sortItems t.styles ↔ p ∈ t.styles := fun p => (sortItems_perm t.styles).mem_iff
+  have hswf := sortItems_wfd t.styles hwf
+  have hread := hc ((sortItems t.styles).map (fun p => (p.1, str p.2)))
+    (by
+      intro e he
+      obtain ⟨p, hp, rfl⟩ := List.mem_map.1 he
+      exact ⟨hnames p ((hmem p).1 hp), hvalues p ((hmem p).1 hp)⟩)
+    (by simpa [WFD, keys, List.map_map, Function.comp_def] using hswf)
+  unfold fromFileWith
+  rw [config_eq_render, hread]
+  simp only [List.map_map, Function.comp_def]
+  rw [evalItems_str parse str _ (fun p hp => hparse p ((hmem p).1 hp))]
+  simp only [Theme.new, evalItems_style]
+
+/-- Every lookup in the theme read back is the lookup in the original theme, falling back to the
+defaults exactly when `inherit` was requested. -/
+theorem dget_roundtrip (base : Dict σ) (d : Dict σ) (hwf : WFD d) (n : Name) :
+    dget (dupdate base (dupdate [] (dupdate [] (sortItems d)))) n = (dget d n).or (dget base n) := by
+  have h1 : WFD (dupdate [] (sortItems d)) := wfd_dupdate _ _ wfd_nil
+  have h2 : WFD (dupdate [] (dupdate [] (sortItems d))) := wfd_dupdate _ _ wfd_nil
+  rw [dget_dupdate _ _ h2, dget_dupdate_nil _ h1, dget_dupdate_nil _ (sortItems_wfd d hwf), dget_sortItems d hwf]
 
 end RichModel.Cfg
